@@ -83,7 +83,7 @@ impl SubCheck for RefObjects {
         "reference_objects"
     }
     fn cases(&self, tier: Tier) -> u32 {
-        tier.pick(60000, 1200000)
+        tier.pick(400000, 5000000)
     }
     fn strategy(&self, _tier: Tier) -> BoxedStrategy<SeqCase> {
         (0u8..3, proptest::collection::vec(0u8..3, 0..3), proptest::collection::vec((any::<u8>(), any::<u8>(), proptest::bool::weighted(0.3), any::<u8>(), any::<u8>()), 0..9))
